@@ -30,7 +30,7 @@ TRUSTED = ["os.walk / importlib (the tree is supplied to the model by the harnes
 FILES = ["tests.py", "test_a.py", "test_b.py", "testx.py", "ftests.py", "helper.py", "__init__.py", "tests.pyc",
          "test_c.pyc", "data.txt", "tests.txt", ".py", "test_b.pyc", "conftest.py"]
 DIRS = ["tests", "pkg", "sub", "ftests", "not-ident", ".git", "node_modules", "__pycache__", "CVS", "1bad", "_ok", "Tests",
-        "pkgx", "sub2"]
+        "pkgx", "sub2", "_darcs", "lambda", "import", "in", "build"]
 
 MODULE_SRC = """import os, json
 _t = os.environ.get("ZTR_TRACE")
@@ -203,6 +203,12 @@ def run(ctx, n=None, module_gate_only=False):
         tfpat = rng.choice([None, None, "^test_", "a$"])
         usec = rng.random() < 0.2
         mfilter = rng.choice([None, None, "tests", "!pkg", "test_a", "^c14ns", "!c14ns", "^tests$", r"^c14ns\.sub\.", "^pkg"])
+        given_ignore = []
+        if rng.random() < 0.25:
+            # names given with --ignore_dir are ignored *in addition to* the built-in ones
+            given_ignore = rng.choice([["build"], ["sub"], ["build", "pkg"], ["lambda"]])
+            for x_ in given_ignore:
+                args += ["--ignore_dir", x_]
         if tpat:
             args += ["--tests-pattern", tpat]
         if tfpat:
@@ -294,7 +300,9 @@ def run(ctx, n=None, module_gate_only=False):
                         "pkg": [enc(c) for c in pk]} for r, pk in zip(roots, roots_pkgs)],
              "identifier": [enc(s) for s in stems if re.match(r"[_a-z]\w*$", s, re.I)],
              "testsPat": [enc(s) for s in stems if tp(s)], "testFilePat": [enc(s) for s in stems if tfp(s)],
-             "ignoreDir": [enc(s) for s in options.ignore_dir],
+             # (the documented built-in names plus the names given - not what the options object happens to hold)
+             "ignoreDir": [enc(s) for s in sorted({".git", ".svn", "CVS", "{arch}", ".arch-ids", "_darcs"}
+                                                  | {args[k_ + 1] for k_, a_ in enumerate(args) if a_ == "--ignore_dir"})],
              "ignoreFolders": [enc(s) for s in (".git", "node_modules", "__pycache__")],
              "usecompiled": usec, "acceptedModules": [],
              "packageDirs": None if pkg_dirs is None else [[enc(c) for c in base_path + list(pd_)] for pd_ in pkg_dirs]}
@@ -323,8 +331,9 @@ def run(ctx, n=None, module_gate_only=False):
         if "--package-path" in args:
             ctx.bump("package-path")
         # ---- monitor: the statement
-        env = {"tp": options.tests_pattern, "tfp": options.test_file_pattern, "ignore": set(options.ignore_dir),
-               "usecompiled": usec}
+        given_ig = [args[k_ + 1] for k_, a_ in enumerate(args) if a_ == "--ignore_dir"]
+        env = {"tp": options.tests_pattern, "tfp": options.test_file_pattern,
+               "ignore": {".git", ".svn", "CVS", "{arch}", ".arch-ids", "_darcs"} | set(given_ig), "usecompiled": usec}
         want = []
         if pkg_dirs is None:
             start = list(roots)
